@@ -61,3 +61,26 @@ Example x1_text :
   s!"X-Matrix destination=" ++ [34] ++ s!"[::1]:8448" ++ [34] ++ s!",key=" ++ [34] ++ s!"ed25519:key1" ++ [34]
   ++ s!",origin=origin.hs.example.com,sig=" ++ [34] ++ s!"AQL//v0" ++ [34].
 Proof. vm_compute. reflexivity. Qed.
+
+(** * JSON bodies through the derive model *)
+From Base Require Json JsonText.
+From Gen Require EndpointBodies.
+From C18 Require Serde SerdeBridge.
+
+(** GET /account/whoami response: `is_guest: false` is left out when encoding and re-created when
+    decoding; the unknown member is dropped; the re-encoded body decodes to the same value. *)
+Example whoami_response_reencode :
+  exists t v j',
+    SerdeBridge.find_schema s!"ruma_client_api::account::whoami::v3" s!"Response" EndpointBodies.endpoint_bodies = Some t /\
+    Serde.deser SerdeBridge.id_valid t
+      (Json.JObj [ (s!"device_id", Json.JStr s!"DEV"); (s!"is_guest", Json.JBool false);
+                   (s!"user_id", Json.JStr s!"@a:x.org"); (s!"zzz", Json.JInt 1) ]) = Some v /\
+    Serde.ser t v = Some j' /\
+    JsonText.print j' = s!"{""user_id"":""@a:x.org"",""device_id"":""DEV""}" /\
+    Serde.deser SerdeBridge.id_valid t j' = Some v.
+Proof. do 3 eexists. repeat split; vm_compute; reflexivity. Qed.
+
+Example whoami_bad_user_id_rejected :
+  forall t, SerdeBridge.find_schema s!"ruma_client_api::account::whoami::v3" s!"Response" EndpointBodies.endpoint_bodies = Some t ->
+  Serde.deser SerdeBridge.id_valid t (Json.JObj [ (s!"user_id", Json.JStr s!"not a user id") ]) = None.
+Proof. intros t H. vm_compute in H. injection H as <-. vm_compute. reflexivity. Qed.
